@@ -119,7 +119,8 @@ def d2(chk, prog):
                 lg = Term.sym(f"v{i}")
             rows.append({"chromosome": "chr1", "start": Term.sym("s"), "end": Term.sym("e"), "gene": "g", "log2": lg,
                          "baf": OrderVal(f"b{i}", None, None, nan=True) if b == "nan" else Term.sym(f"b{i}", 0.0, 1.0)})
-        g = make_ga("CopyNumArray", rows, {"sample_id": "S"})
+        # row labels repeat, as in per-chromosome pieces glued together without renumbering
+        g = make_ga("CopyNumArray", rows, {"sample_id": "S"}, index="any", labels=[0, 1, 2, 0, 1, 2])
         try:
             out = tb.guard(lambda: it.run(fi.qn, [g, None, method, P, None, False, False, None, None, thr]), f"method={method}")
         finally:
